@@ -508,6 +508,40 @@ def check_quoted_words(idx: Index, rep: Report) -> None:
         r.ok("table-form", "no literal boolean return in the reader (table form, checked by C18.R1)")
 
 
+def check_spec_text_untouched(idx: Index, rep: Report) -> None:
+    """The text of a pipeline specification is structured only by the lexer (quoted strings are one token).  Any rewriting
+    of the raw text before it is lexed -- a regex substitution, replace(), split / join -- does not know about quotes and
+    changes string values that contain the characters it looks for."""
+    r = rep.rule("C18.R8", "every caller of parse_pipeline in passes.py / arg_spec.py hands it the specification text as received: no regex or string rewriting of the raw text before the lexer sees it", floor=1)
+    n = 0
+    for rel in ("xdsl/passes.py", AS, "xdsl/xdsl_opt_main.py"):
+        try:
+            mi = idx.module(rel)
+        except AnalysisError:
+            continue
+        from ..srcindex import raw_funcs as _rf
+
+        for f in _rf(mi):
+            cfg = None
+            for c in calls_in(f.node):
+                if call_attr(c) != "parse_pipeline" and unparse(c.func) != "parse_pipeline":
+                    continue
+                if not c.args:
+                    continue
+                n += 1
+                if cfg is None:
+                    cfg = CFG(f.node)
+                txt = resolved_text(cfg, c.args[0], cfg.node_of(c))
+                inst = f"{f.fq}:{c.lineno - f.node.lineno}"
+                rewriting = re.search(r"\bre\.(sub|subn|split)\(|\.replace\(|\.translate\(|\.split\(|\.join\(|\.expandtabs\(", txt)
+                if rewriting:
+                    r.fail(inst, Finding("C18.R8", f.fq, "spec-text-rewritten", f"`{unparse(c)[:60]}` lexes `{txt[:70]}`: the raw specification is rewritten before the lexer has recognised the quoted strings, so a string value that contains the rewritten characters (`\"a, b\"`) is changed silently and the parsed pipeline is not the one that was printed", f"{rel}:{c.lineno}"))
+                else:
+                    r.ok(inst, f"{rel}:{c.lineno} lexes `{txt[:40]}`")
+    if n == 0:
+        raise AnalysisError("no call of parse_pipeline found in passes.py / arg_spec.py")
+
+
 def check(idx: Index, rep: Report, tier: str) -> str:
     rep.run(check_writer_forms, idx, rep)
     rep.run(check_escapes, idx, rep)
@@ -516,6 +550,7 @@ def check(idx: Index, rep: Report, tier: str) -> str:
     rep.run(check_pipeline_instances, idx, rep)
     rep.run(check_spec_not_consumed, idx, rep)
     rep.run(check_quoted_words, idx, rep)
+    rep.run(check_spec_text_untouched, idx, rep)
     return (
         "Regular-language analysis of each writer form of ArgSpec._spec_parameter_type_str against the first-match token "
         "rules of arg_spec.py and the value parser's type mapping; agreement of the lexer's escape alphabet with the decoder; "
